@@ -24,11 +24,13 @@ AnyRole == [c \in Sides |-> {"Socket", "BindNone", "BindAddr", "BindName", "List
                              "Resolve", "ConnectName", "ConnectAddr", "SendTo", "Recv", "PeerFrmr"}]
 AnyKind == [c \in Sides |-> <<>>]
 NoBound == [c \in Sides |-> 1000000]
+MiuAB == [c \in Sides |-> 128]          \* overridden per trace in TInit (const.miuA / const.miuB)
 
 TInit ==
     /\ tid \in 1..Len(Traces)
     /\ l = 1
-    /\ w = World0 /\ last = L0
+    /\ w = [World0 EXCEPT !.miu = [c \in Sides |-> IF c = "A" THEN Traces[tid].const.miuA ELSE Traces[tid].const.miuB]]
+    /\ last = L0
     /\ fails = <<>>
 
 Ev == T[l]
@@ -46,7 +48,7 @@ Guarded ==
     \/ IsEv("ConnectAddr") /\ ConnectAddr(Ev.c, Ev.s, Ev.a)
     \/ IsEv("ConnectName") /\ ConnectName(Ev.c, Ev.s, Ev.n)
     \/ IsEv("Accept")      /\ Accept(Ev.c, Ev.s)
-    \/ IsEv("SendTo")      /\ SendTo(Ev.c, Ev.s, Ev.dst, Ev.m)
+    \/ IsEv("SendTo")      /\ SendTo(Ev.c, Ev.s, Ev.dst, Ev.m, Ev.ln)
     \/ IsEv("RecvFrom")    /\ RecvFrom(Ev.c, Ev.s)
     \/ IsEv("Recv")        /\ Recv(Ev.c, Ev.s)
     \/ IsEv("PeerFrmr")    /\ PeerFrmr(Ev.c, Ev.s)
@@ -59,11 +61,11 @@ ResOk ==
     /\ Ev.op = "Resolve" => (last'.val = Ev.val /\ last'.cached = Ev.cached)
     /\ Ev.op \in {"ConnectAddr", "ConnectName"} => last'.reach = Ev.reach
     /\ Ev.op \in {"SendTo", "Accept"} => last'.got = Ev.got
-    /\ Ev.op = "RecvFrom" => (last'.m = Ev.m /\ last'.a = Ev.a)
+    /\ Ev.op = "RecvFrom" => (last'.m = Ev.m /\ last'.a = Ev.a /\ last'.ln = Ev.ln)
 
 \* projection of one controller: what getsockname / the tables show
 ProjSock(k) == [kind |-> k.kind, addr |-> k.addr, st |-> k.st, peer |-> k.peer,
-                rq |-> [j \in DOMAIN k.rq |-> <<IF k.kind = "dlc" THEN 0 ELSE k.rq[j].m, k.rq[j].ssap>>]]
+                rq |-> [j \in DOMAIN k.rq |-> <<IF k.kind = "dlc" THEN 0 ELSE k.rq[j].m, k.rq[j].ssap, k.rq[j].len>>]]
 \* sparse: <<address, socket ids>> of the occupied access points, <<name index, address>> of the known names
 Sparse(f, n, skip) == FoldLeft(LAMBDA acc, i : IF f[i] = skip THEN acc ELSE Append(acc, <<i, f[i]>>), <<>>, [i \in 1..n |-> i])
 ProjSide(x, c) == [sk   |-> [i \in DOMAIN x.sk[c] |-> ProjSock(x.sk[c][i])],
@@ -74,7 +76,7 @@ Proj(x) == [A |-> ProjSide(x, "A"), B |-> ProjSide(x, "B")]
 PostOk == Proj(w') = Ev.post
 
 InvNames == <<"OneAddrPerSocket", "NoDoubleAlloc", "RangesRespected", "FreedOnLastClose", "Datagram",
-              "ResolveRight", "InUseRight", "ConnectByName", "DatagramStep">>
+              "ResolveRight", "InUseRight", "ConnectByName", "DatagramStep", "Delivered">>
 \* state invariants are judged at the step that breaks them (P(w) => P(w')): a defect is reported where it
 \* happens (recorded in `fails`) and the rest of the history is still validated
 InvP(n) == CASE n = "OneAddrPerSocket" -> OneAddrPerSocketP(w) => OneAddrPerSocketP(w')
@@ -86,6 +88,7 @@ InvP(n) == CASE n = "OneAddrPerSocket" -> OneAddrPerSocketP(w) => OneAddrPerSock
              [] n = "InUseRight"       -> InUseRightP(w, last')
              [] n = "ConnectByName"    -> ConnectByNameP(w, last')
              [] n = "DatagramStep"     -> DatagramStepP(w, w', last')
+             [] n = "Delivered"        -> DeliveredP(w, last')
 AllInv == \A i \in DOMAIN InvNames : InvP(InvNames[i])
 Broken == SelectSeq(InvNames, LAMBDA n : ~InvP(n))
 
@@ -115,6 +118,9 @@ Expected ==
       [] Ev.op = "Resolve" -> ResolveR(w, Ev.c, Ev.n).val
       [] Ev.op = "Close" -> CloseR(w, Ev.c, Ev.s, NoFix).res
       [] Ev.op = "Listen" -> ListenR(w, Ev.c, Ev.s).res
+      [] Ev.op = "SendTo" -> LET r == SendToR(w, Ev.c, Ev.s, Ev.dst, Ev.m, Ev.ln) IN
+                             <<r.res, r.got, IF r.res = "OK" /\ Ev.res = "OK" /\ r.got # 0 /\ Ev.got = 0
+                                             THEN "AcceptedDatagramNotDelivered" ELSE "-">>
       [] OTHER -> "-"
 Why == IF ~ENABLED Guarded THEN <<"guard">>
        ELSE IF ~ENABLED (Guarded /\ ResOk) THEN <<"result", Expected>>
